@@ -565,3 +565,286 @@ Proof.
       destruct Hr as (_ & Hs). destruct (Hs t' Hso) as (E & _). rewrite E. split; [auto|].
       intros [Hx|Hx]; [exact Hx|contradiction].
 Qed.
+
+(** ---------- (2) the trace checker with reset at the switch ---------- *)
+Lemma trace_step_orc o b e a : trace_step (orc o b) e a = trace_step (o_clear o) e a.
+Proof. destruct e as [c|env msg| | |n]; try reflexivity; destruct n; reflexivity. Qed.
+
+Lemma trace_run_orc o b evs : forall a, trace_run (orc o b) evs a = trace_run (o_clear o) evs a.
+Proof.
+  induction evs as [|e r IH]; intros a; cbn [trace_run]; [reflexivity|].
+  rewrite trace_step_orc. destruct (trace_step (o_clear o) e a); [apply IH|reflexivity].
+Qed.
+
+Lemma ttrace_run_tag oc b evs : forall a, ttrace_run oc (tag b evs) a = trace_run oc evs a.
+Proof.
+  induction evs as [|e r IH]; intros a; cbn [tag map ttrace_run trace_run]; [reflexivity|].
+  destruct (trace_step oc e a); [apply IH|reflexivity].
+Qed.
+
+Lemma ttrace_run_app oc e1 e2 : forall a,
+  ttrace_run oc (e1 ++ e2) a = match ttrace_run oc e1 a with Some a' => ttrace_run oc e2 a' | None => None end.
+Proof.
+  induction e1 as [|e r IH]; intros a; cbn [app ttrace_run]; [reflexivity|].
+  destruct e as [b e| | | |]; try apply IH.
+  destruct (trace_step oc e a); [apply IH|reflexivity].
+Qed.
+
+Definition tquiet_ev (x : tevent) : bool :=
+  match x with TE _ e => quiet_ev e | TSwitch => false | _ => true end.
+
+Lemma tquiet_trace oc evs : forall a, forallb tquiet_ev evs = true -> ttrace_run oc evs a = Some a.
+Proof.
+  induction evs as [|e r IH]; intros a; cbn [forallb ttrace_run]; [reflexivity|].
+  intros H. apply andb_true_iff in H as [He Hr].
+  destruct e as [b e| | | |]; try (apply IH; exact Hr); [|discriminate].
+  destruct e; try discriminate; cbn [trace_step]; apply IH; exact Hr.
+Qed.
+
+Lemma tquiet_tag b e : quiet e -> forallb tquiet_ev (tag b e) = true.
+Proof.
+  unfold quiet, tag. induction e as [|x r IH]; cbn [map forallb]; [reflexivity|].
+  intros H. apply andb_true_iff in H as [Hx Hr]. cbn [tquiet_ev]. rewrite Hx. apply IH. exact Hr.
+Qed.
+
+Lemma tquiet_app x y : forallb tquiet_ev x = true -> forallb tquiet_ev y = true -> forallb tquiet_ev (x ++ y) = true.
+Proof. intros Hx Hy. rewrite forallb_app, Hx, Hy. reflexivity. Qed.
+
+Lemma failed_tquiet o closes t s evs so : round_failed o closes t s evs so -> forallb tquiet_ev evs = true.
+Proof.
+  unfold round_failed. intros H.
+  destruct (handshake (o_eat o) (en (rd s)) (later t) closes) as [? ?|a e' l'| | |]; [contradiction| | | |].
+  - destruct H as (ev & so' & Ho & -> & _).
+    destruct (on_error_spec (o_clear o) _ _ _ _ Ho) as (Hq & _).
+    apply tquiet_app; [destruct a; reflexivity|apply tquiet_tag; exact Hq].
+  - destruct H as (ev & so' & Ho & -> & _).
+    destruct (on_error_spec (o_clear o) _ _ _ _ Ho) as (Hq & _).
+    apply tquiet_app; [reflexivity|apply tquiet_tag; exact Hq].
+  - destruct H as (-> & _). reflexivity.
+  - destruct H as (-> & _). reflexivity.
+Qed.
+
+(** in the EHLO state nothing of a transaction exists *)
+Lemma R_ehlo_state oc s a : R oc s a -> N.land (comstate s) 16 <> 0%N ->
+  comstate s = 16%N /\ mailfrom s = [] /\ rcpts s = [] /\ rcptcount s = 0 /\ goodrcpt s = 0.
+Proof.
+  intros HR Hm. pose proof (R_comstate oc s a HR) as Hc.
+  destruct HR as [(Hn & Hl & Hg & Hph & Htx) _].
+  assert (Ec : comstate s = 16%N).
+  { destruct Hc as [E|[E|[E|[E|E]]]]; try exact E; rewrite E in Hm; exfalso; apply Hm; reflexivity. }
+  split; [exact Ec|].
+  destruct (a_phase a) eqn:Ep.
+  - rewrite Ec in Hph. discriminate.
+  - destruct (a_txn a) as [[f rs]|].
+    + destruct Htx as ([E|E] & _); discriminate.
+    + destruct Htx as (_ & Hmf & Hrc). rewrite Hrc in Hl, Hg. cbn in Hl, Hg. rewrite <- Hl in Hn. auto.
+  - destruct Hph as [E _]. rewrite Ec in E. discriminate.
+  - destruct Hph as [E _]. rewrite Ec in E. discriminate.
+Qed.
+
+Lemma R_after_switch oc s r : R oc s a_init \/ True ->
+  mailfrom s = [] -> rcpts s = [] -> rcptcount s = 0 -> goodrcpt s = 0 -> Irel oc (relayclient s) ->
+  R oc (set_badcmds (set_comstate (set_rd s r) 1%N) 0) a_init.
+Proof.
+  intros _ Hmf Hrc Hn Hg Hi. split; [|exact Hi].
+  cbn [set_badcmds set_comstate set_rd comstate mailfrom rcpts rcptcount goodrcpt].
+  rewrite Hmf, Hrc, Hn, Hg. unfold Rc, a_init. cbn. repeat split; auto.
+Qed.
+
+Theorem tstep_inv f o closes t a evs so : R (o_clear o) (ss t) a -> tstep f o closes t = (evs, so) ->
+  exists a', ttrace_run (o_clear o) evs a = Some a' /\ (forall t', so = Some t' -> R (o_clear o) (ss t') a').
+Proof.
+  intros HR Hstep.
+  destruct (tstep_cases _ _ _ _ _ _ Hstep) as [(e0 & so0 & Hs & -> & -> & _)|(l & r' & i & row & ev1 & h & t1 & Hread & Hrow & _)].
+  - assert (HR' : R (orc o (tls t)) (ss t) a) by exact HR.
+    destruct (step_spec _ _ _ _ _ _ HR' Hs) as (a' & Htr & _ & Hnext).
+    exists a'. split.
+    + rewrite ttrace_run_app, ttrace_run_tag, <- (trace_run_orc o (tls t)), Htr.
+      apply tquiet_trace. destruct (offer_cases o t e0 so0) as [E|E]; rewrite E; reflexivity.
+    + intros t' Ht. destruct so0 as [s'|]; [|discriminate]. inversion Ht; subst. cbn [mk ss].
+      destruct (Hnext s' eq_refl) as (HRs & _). exact HRs.
+  - destruct (starttls_round _ _ _ _ _ _ _ _ _ _ Hstep Hread Hrow) as [(Ht & He & Hi & Hm & Hinn & Hcur & [Hsw|Hf])|Hr].
+    + destruct Hsw as (segs & l' & _ & -> & ->). exists a_init. split; [reflexivity|].
+      intros t' Hx. inversion Hx; subst. cbn [ss].
+      assert (HRs : R (o_clear o) (set_rd (ss t) r') a) by exact HR.
+      destruct (R_ehlo_state _ _ _ HRs Hm) as (_ & Hmf & Hrc & Hn & Hg).
+      apply (R_after_switch (o_clear o) (set_rd (ss t) r')); auto. exact (proj2 HRs).
+    + exists a. split; [apply tquiet_trace; exact (failed_tquiet _ _ _ _ _ _ Hf)|].
+      intros t' Hx. unfold round_failed in Hf.
+      destruct (handshake _ _ _ _) as [? ?|a0 e' l'| | |]; [contradiction| | | |].
+      * destruct Hf as (ev & so' & Ho & _ & ->). destruct so' as [s'|]; [|discriminate]. inversion Hx; subst. cbn [ss].
+        eapply R_same; [eapply on_error_same; exact Ho|]. exact HR.
+      * destruct Hf as (ev & so' & Ho & _ & ->). destruct so' as [s'|]; [|discriminate]. inversion Hx; subst. cbn [ss].
+        eapply R_same; [eapply on_error_same; exact Ho|]. exact HR.
+      * destruct Hf as (_ & ->). discriminate.
+      * destruct Hf as (_ & ->). discriminate.
+    + destruct Hr as ((e & -> & Hq & _) & Hs). exists a. split; [apply tquiet_trace, tquiet_tag; exact Hq|].
+      intros t' Hx. destruct (Hs t' Hx) as (_ & _ & Hsame). eapply R_same; [exact Hsame|]. exact HR.
+Qed.
+
+Theorem tserve_inv fuel o closes : forall t a, R (o_clear o) (ss t) a ->
+  ttrace_run (o_clear o) (tserve fuel o closes t) a <> None.
+Proof.
+  induction fuel as [|f IH]; intros t a HR; cbn [tserve]; [cbn; discriminate|].
+  destruct (tstep f o closes t) as [ev so] eqn:Es.
+  destruct (tstep_inv _ _ _ _ _ _ _ HR Es) as (a' & Htr & Hnext).
+  rewrite ttrace_run_app, Htr.
+  destruct so as [t'|].
+  - apply IH. apply Hnext. reflexivity.
+  - destruct (closes && no_later t); cbn; discriminate.
+Qed.
+
+Theorem reset_after_switch o sc : ttrace_ok (o_clear o) (trun o sc).
+Proof.
+  unfold ttrace_ok, trun. cbn [ttrace_run trace_step].
+  apply tserve_inv. unfold tinit. cbn [ss]. split.
+  - unfold init_state, Rc, a_init. cbn. repeat split; auto.
+  - unfold Irel, init_state. cbn. discriminate.
+Qed.
+
+(** ---------- readable corollaries of the reset ---------- *)
+Definition nothing_yet (a : astate) : Prop := a_phase a = PInit /\ a_txn a = None.
+
+Lemma nothing_yet_step oc e a a' : nothing_yet a -> trace_step oc e a = Some a' -> nothing_yet a' \/ e = Note NHelo.
+Proof.
+  intros [Hp Ht] H. destruct e as [c|env msg| | |n]; cbn [trace_step] in H.
+  - inversion H; subst. left. split; assumption.
+  - rewrite Ht in H. discriminate.
+  - inversion H; subst. left. split; assumption.
+  - inversion H; subst. left. split; assumption.
+  - destruct n; try (rewrite ?Hp, ?Ht in H; discriminate).
+    + inversion H; subst. rewrite Hp. left. split; reflexivity.
+    + right. reflexivity.
+Qed.
+
+Lemma nothing_yet_run oc mid : forall a a1, nothing_yet a -> ttrace_run oc mid a = Some a1 ->
+  nothing_yet a1 \/ exists m1 m2 b, mid = m1 ++ TE b (Note NHelo) :: m2.
+Proof.
+  induction mid as [|x r IH]; intros a a1 Hn H; cbn [ttrace_run] in H.
+  - inversion H; subst. left. exact Hn.
+  - assert (Cons : forall a2, nothing_yet a2 -> ttrace_run oc r a2 = Some a1 ->
+                   nothing_yet a1 \/ exists m1 m2 b, x :: r = m1 ++ TE b (Note NHelo) :: m2).
+    { intros a2 Hn2 H2. destruct (IH _ _ Hn2 H2) as [Hl|(m1 & m2 & b & ->)]; [left; exact Hl|].
+      right. exists (x :: m1), m2, b. reflexivity. }
+    destruct x as [b e| | | |]; try (apply (Cons a); assumption).
+    + destruct (trace_step oc e a) as [a2|] eqn:Est; [|discriminate].
+      destruct (nothing_yet_step _ _ _ _ Hn Est) as [Hn2| ->].
+      * apply (Cons a2); assumption.
+      * right. exists [], r, b. reflexivity.
+    + apply (Cons a_init); [split; reflexivity|exact H].
+Qed.
+
+Lemma ttrace_split oc pre rest : ttrace_run oc (pre ++ TSwitch :: rest) a_init <> None ->
+  ttrace_run oc rest a_init <> None.
+Proof.
+  rewrite ttrace_run_app. destruct (ttrace_run oc pre a_init); [|congruence]. cbn [ttrace_run]. auto.
+Qed.
+
+Lemma ttrace_prefix oc p q a : ttrace_run oc (p ++ q) a <> None ->
+  exists a', ttrace_run oc p a = Some a' /\ ttrace_run oc q a' <> None.
+Proof.
+  rewrite ttrace_run_app. destruct (ttrace_run oc p a) as [a'|]; [eauto|congruence].
+Qed.
+
+(** after the handshake MAIL FROM is accepted only behind a HELO/EHLO that was itself given after the handshake *)
+Theorem mail_needs_new_greeting o sc pre mid b f post :
+  trun o sc = pre ++ TSwitch :: mid ++ TE b (Note (NMail f)) :: post ->
+  exists m1 m2 b', mid = m1 ++ TE b' (Note NHelo) :: m2.
+Proof.
+  intros E. pose proof (reset_after_switch o sc) as Hok. unfold ttrace_ok in Hok. rewrite E in Hok.
+  apply ttrace_split in Hok. apply ttrace_prefix in Hok as (a1 & Hmid & Hrest).
+  assert (Hny : nothing_yet a_init) by (split; reflexivity).
+  destruct (nothing_yet_run _ _ _ _ Hny Hmid) as [[Hp _]|Hex]; [|exact Hex].
+  exfalso. apply Hrest. cbn [ttrace_run trace_step]. rewrite Hp. reflexivity.
+Qed.
+
+(** a hand-off after the handshake carries exactly the transaction built from what was accepted after the handshake *)
+Theorem handoff_after_switch o sc pre mid b env msg post :
+  trun o sc = pre ++ TSwitch :: mid ++ TE b (Handoff env msg) :: post ->
+  exists a f rs, ttrace_run (o_clear o) mid a_init = Some a /\ a_txn a = Some (f, rs) /\ env = env_of (Some (f, rs)).
+Proof.
+  intros E. pose proof (reset_after_switch o sc) as Hok. unfold ttrace_ok in Hok. rewrite E in Hok.
+  apply ttrace_split in Hok. apply ttrace_prefix in Hok as (a1 & Hmid & Hrest).
+  cbn [ttrace_run trace_step] in Hrest.
+  destruct (a_txn a1) as [[f rs]|] eqn:Et; [|congruence].
+  destruct (bytes_eqb env (env_of (Some (f, rs)))) eqn:Eb; [|congruence].
+  apply bytes_eqb_eq in Eb. exists a1, f, rs. auto.
+Qed.
+
+(** ---------- shape of the trace: clear text, then at most one switch, then TLS only ---------- *)
+Lemma in_tls_tag e : forallb in_tls (tag true e) = true.
+Proof. unfold tag. induction e as [|x r IH]; cbn [map forallb in_tls]; [reflexivity|exact IH]. Qed.
+
+Lemma in_clear_tag e : forallb in_clear (tag false e) = true.
+Proof. unfold tag. induction e as [|x r IH]; cbn [map forallb in_clear negb andb]; [reflexivity|exact IH]. Qed.
+
+Lemma shape_ok_app e1 r : forallb in_clear e1 = true -> shape_ok (e1 ++ r) = shape_ok r.
+Proof.
+  induction e1 as [|x e IH]; cbn [app forallb]; [reflexivity|].
+  intros H. apply andb_true_iff in H as [Hx He].
+  destruct x as [b ev| | | |]; cbn [shape_ok]; try discriminate; rewrite ?Hx, IH; auto.
+Qed.
+
+Lemma shape_ok_clear e1 : forallb in_clear e1 = true -> shape_ok e1 = true.
+Proof. intros H. rewrite <- (app_nil_r e1). rewrite shape_ok_app; [reflexivity|exact H]. Qed.
+
+Lemma tstep_in_tls f o closes t evs so : tls t = true -> tstep f o closes t = (evs, so) ->
+  forallb in_tls evs = true /\ (forall t', so = Some t' -> tls t' = true).
+Proof.
+  intros Ht Hstep.
+  destruct (tstep_cases _ _ _ _ _ _ Hstep) as [(e0 & so0 & _ & -> & -> & _)|(l & r' & i & row & ev1 & h & t1 & Hread & Hrow & _)].
+  - split.
+    + rewrite forallb_app, Ht, in_tls_tag. unfold offer. destruct so0; [|reflexivity].
+      destruct guards_ok as (_ & _ & _ & G4 & _). rewrite G4, Ht. cbn [negb orb]. rewrite andb_false_r. reflexivity.
+    + intros t' Hx. destruct so0; [|discriminate]. inversion Hx; subst. exact Ht.
+  - destruct (starttls_round _ _ _ _ _ _ _ _ _ _ Hstep Hread Hrow) as [(Hf & _)|((e & -> & _) & Hs)]; [congruence|].
+    split; [rewrite Ht; apply in_tls_tag|].
+    intros t' Hx. destruct (Hs t' Hx) as (E & _). congruence.
+Qed.
+
+Lemma tserve_in_tls fuel o closes : forall t, tls t = true -> forallb in_tls (tserve fuel o closes t) = true.
+Proof.
+  induction fuel as [|f IH]; intros t Ht; cbn [tserve]; [rewrite Ht; reflexivity|].
+  destruct (tstep f o closes t) as [ev so] eqn:Es.
+  destruct (tstep_in_tls _ _ _ _ _ _ Ht Es) as (Hev & Hn).
+  rewrite forallb_app, Hev. destruct so as [t'|]; [apply IH, Hn; reflexivity|].
+  destruct (closes && no_later t); [rewrite Ht|]; reflexivity.
+Qed.
+
+Lemma tstep_in_clear f o closes t evs so : tls t = false -> tstep f o closes t = (evs, so) ->
+  (forallb in_clear evs = true /\ (forall t', so = Some t' -> tls t' = false))
+  \/ (evs = [TE false (Reply TLS_READY_CODE); TSwitch] /\ exists t', so = Some t' /\ tls t' = true).
+Proof.
+  intros Ht Hstep.
+  destruct (tstep_cases _ _ _ _ _ _ Hstep) as [(e0 & so0 & _ & -> & -> & _)|(l & r' & i & row & ev1 & h & t1 & Hread & Hrow & _)].
+  - left. split.
+    + rewrite forallb_app, Ht, in_clear_tag. destruct (offer_cases o t e0 so0) as [E|E]; rewrite E; reflexivity.
+    + intros t' Hx. destruct so0; [|discriminate]. inversion Hx; subst. exact Ht.
+  - destruct (starttls_round _ _ _ _ _ _ _ _ _ _ Hstep Hread Hrow) as [(_ & _ & _ & _ & _ & _ & [Hsw|Hf])|((e & -> & _) & Hs)].
+    + right. destruct Hsw as (segs & l' & _ & -> & ->). split; [reflexivity|]. eexists. split; reflexivity.
+    + left. unfold round_failed in Hf.
+      destruct (handshake _ _ _ _) as [? ?|a e' l'| | |]; [contradiction| | | |].
+      * destruct Hf as (ev & so' & _ & -> & ->). split.
+        -- rewrite forallb_app, in_clear_tag. destruct a; reflexivity.
+        -- intros t' Hx. destruct so'; [|discriminate]. inversion Hx; reflexivity.
+      * destruct Hf as (ev & so' & _ & -> & ->). split.
+        -- rewrite forallb_app, in_clear_tag. reflexivity.
+        -- intros t' Hx. destruct so'; [|discriminate]. inversion Hx; reflexivity.
+      * destruct Hf as (-> & ->). split; [reflexivity|discriminate].
+      * destruct Hf as (-> & ->). split; [reflexivity|discriminate].
+    + left. split; [rewrite Ht; apply in_clear_tag|].
+      intros t' Hx. destruct (Hs t' Hx) as (E & _). congruence.
+Qed.
+
+Lemma tserve_shape fuel o closes : forall t, tls t = false -> shape_ok (tserve fuel o closes t) = true.
+Proof.
+  induction fuel as [|f IH]; intros t Ht; cbn [tserve]; [rewrite Ht; reflexivity|].
+  destruct (tstep f o closes t) as [ev so] eqn:Es.
+  destruct (tstep_in_clear _ _ _ _ _ _ Ht Es) as [(Hev & Hn)|(-> & t' & -> & Ht')].
+  - rewrite shape_ok_app; [|exact Hev]. destruct so as [t'|]; [apply IH, Hn; reflexivity|].
+    destruct (closes && no_later t); [rewrite Ht|]; reflexivity.
+  - cbn [app shape_ok in_clear negb andb]. apply tserve_in_tls. exact Ht'.
+Qed.
+
+Theorem shape o sc : shape_ok (trun o sc) = true.
+Proof. unfold trun. cbn [shape_ok in_clear negb andb]. apply tserve_shape. reflexivity. Qed.
